@@ -190,7 +190,7 @@ FACTOR_C = 0.750024322
 @st.composite
 def guderley_pair(draw):
     return dict(solver=cat.GUDERLEY, params=draw(cat.guderley_params()), t1=draw(uni(0.15, 0.45)), t2=draw(uni(0.5, 0.68)),
-                xi=draw(st.lists(uni(-0.95, -0.1), min_size=2, max_size=4)), xip=draw(st.lists(uni(0.05, 3.0), min_size=1, max_size=3)))
+                xi=draw(st.lists(uni(-0.95, -0.1), min_size=2, max_size=4)), xip=draw(st.lists(uni(0.05, 3.0), min_size=2, max_size=4)))
 
 
 def check_guderley(case):
@@ -229,6 +229,9 @@ def check_guderley(case):
     C, Dd = f(r3, t3), f(r4, t4)
     o.close('post-collapse: density depends on t_L/r^lambda only', C[0], Dd[0], 5e-6)
     o.close('post-collapse: u t_L / r depends on t_L/r^lambda only', C[1] * tl3 / r3, Dd[1] * tl4 / r4, 5e-6, scale=np.max(np.abs(C[1] * tl3 / r3)) + 1e-3)
+    o.close('post-collapse: p t_L^2 / (rho r^2) depends on t_L/r^lambda only', C[2] * tl3 ** 2 / (C[0] * r3 ** 2), Dd[2] * tl4 ** 2 / (Dd[0] * r4 ** 2), 1e-5,
+            scale=np.max(np.abs(C[2] * tl3 ** 2 / (C[0] * r3 ** 2))))
+    o.label('behind-reflected-shock' if np.any(xip > 0.75) else 'ahead-of-reflected-shock')
     o.nontrivial = True
     return o
 
